@@ -359,6 +359,15 @@ class KmipEngine(object):
         with self._data_store_session_factory() as session:
             self._data_session = session
 
+            # Process batch item IDs. Check all of them before any item is
+            # processed, so that a request rejected here has no effect.
+            if len(request_batch) > 1:
+                for batch_item in request_batch:
+                    if not batch_item.unique_batch_item_id:
+                        raise exceptions.InvalidMessage(
+                            "Batch item ID is undefined."
+                        )
+
             for batch_item in request_batch:
                 error_occurred = False
 
@@ -369,13 +378,6 @@ class KmipEngine(object):
 
                 operation = batch_item.operation
                 request_payload = batch_item.request_payload
-
-                # Process batch item ID.
-                if len(request_batch) > 1:
-                    if not batch_item.unique_batch_item_id:
-                        raise exceptions.InvalidMessage(
-                            "Batch item ID is undefined."
-                        )
 
                 # Process batch message extension.
                 # TODO (peterhamilton) Add support for message extension handling.
